@@ -9,9 +9,22 @@ TINY = {"cfgs": [{"throttle": 0, "attempts": 1, "dry": False}, {"throttle": 1, "
         "limit_quick": 1500, "limit_thorough": 15000}
 
 
+def _adapters(ck):
+    # the cancel path of every REAL adapter (Local, Slurm, LSF with a scripted process layer; Flux
+    # interfaces with an in-memory fake flux module): cancel_jobs([]) total, every id of the list gets a
+    # cancel attempt, nothing else does, CancellationRecord OK iff all succeeded; cancel_study end to end
+    from harness.props import c07_adapters
+    c07_adapters.run_adapters(ck)
+
+
 def run(ck):
-    return X.run_exec(ck, 7, BIAS, tiny=TINY)
+    return X.run_exec(ck, 7, BIAS, tiny=TINY, extra=_adapters)
 
 
 def replay(ck, path):
+    import json
+    from harness.props import c07_adapters
+    d = json.load(open(path))
+    if c07_adapters.is_adapter_case(d.get("case", d)):
+        return c07_adapters.replay_adapters(ck, d)
     return X.replay_exec(ck, 7, path)
